@@ -32,7 +32,7 @@ ASSUMPTIONS = ['python == / hash on the generated elements (None, ints, quarter 
                'kwargs_support(f)(**params) passes exactly the declared arguments by name and raises TypeError when one is missing; generated functions are lambda args: c + 1*a1 + 2*a2 + ... and never declare an argument named key',
                'attribute access (getattr/setattr/delattr = item access, AttributeError for KeyError) and in-place writes are modelled on a heap of handles (DAHeap); a name that is a public attribute of the class (DAHeap.shadowed, compared with dir(cls) by a law) yields the bound method, a private name (leading underscore) is written to the instance dict which is not modelled (known finding K1); object identity beyond handles (aliasing of values) is not modelled',
                'Dict + other is tree_update (C15): modelled by DA.addC / PygModel.DictAdd on the C15 model Tree.itemsToTree; with dict values on both sides it is the recursive merge, not {**d, **o}',
-               'tuple paths (d - (a, b)) and absent dotted keys in d[k] / d[k1, k2] / d[[..]] are modelled on Val-valued mappings (PygModel/DADotted.lean) and generated for the stateless operators; in the handle histories (generic heap model) keys hold no dot; the path walk is generated through dict values, numbers and None only (str / list values on the way: not generated); relabelling onto an existing key is outside the statement and not generated; self-referential callables are outside the acyclic statement and generated for correspondence only (call-selfloop)']
+               'tuple paths (d - (a, b)) and absent dotted keys in d[k] / d[k1, k2] / d[[..]] are modelled on Val-valued mappings (PygModel/DADotted.lean) and generated for the stateless operators; in the handle histories (generic heap model) keys hold no dot; the path walk is generated through dict values, numbers and None only (str / list values on the way: not generated); relabelling onto an existing key / of two keys to one name (a value is lost: the statement has no reading) is generated for correspondence (d.relabel-collision; model theorem relabel_lookup: the last colliding item wins); self-referential callables are outside the acyclic statement and generated for correspondence only (call-selfloop)']
 
 ELEMS = [None, 0, 1, 2, 3, 4, 5, 1.0, 2.0, 2.5, 'a', 'b', 'c', '', (1, 2), (1, 'a'), (2.0, 1), ()]
 KEYS = ['a', 'b', 'c', 'd', 'e', 'x', 'y']
@@ -42,6 +42,9 @@ DICT_VALS = [{'x': 1}, {'y': 2}, {'x': 3, 'z': 'u'}, {'x': {'z': 1}}, {'x': {'w'
 EMPTY_VALS = [{}, {'x': {}}]            # empty branches: outside C15's quantifier (Dict + {'b': {}} drops b); generated, divergence-only
 VALS = FLAT_VALS + DICT_VALS
 # names that python finds on the CLASS before __getattr__ is asked (known finding K1), and a private name
+# keys spelled like the PARAMETER names of the methods under test (review t2 V4: `Dict(a=1)(self=...)`, `d.relabel(self='x')`, `d.relabel(keys='x')`
+# raised TypeError 'got multiple values for argument' before fix C16-T1): strings like any other
+ARG_KEYS = ['self', 'other', 'function', 'value', 'args', 'relabels']
 SHADOW_KEYS = ['keys', 'items', 'copy', 'get', 'update', 'values', 'pop', 'relabel', 'rename', 'apply', 'do']
 
 
@@ -111,6 +114,9 @@ def rand_da(rng, shadow=False):
     ks = rng.sample(KEYS, rng.choice([0, 1, 2, 3, 4, 5]))
     if shadow:
         ks = ks[:3] + rng.sample(SHADOW_KEYS, rng.choice([1, 2]))
+        rng.shuffle(ks)
+    elif rng.random() < 0.2:
+        ks = ks + rng.sample(ARG_KEYS, rng.choice([1, 2]))
         rng.shuffle(ks)
     return rng.choice([1, 1, 2, 2, 3, 4]), {k: rand_val(rng) for k in ks}
 
@@ -216,9 +222,32 @@ def gen_da(rng):
             tag = ('d.add-Dict-merge' if cls == 1 else 'd.add-DictSubclass-merge') if any(isinstance(d.get(k), dict) and isinstance(v, dict) for k, v in o.items()) else 'd.add-Dict-branch'
             return dict(tag=tag + ('-empty' if any(_has_empty(v) for v in o.values()) else ''), lines=['(c16 d.add %s %s)' % (D, arg)])
     elif op == 'd.relabel':
-        olds = rng.sample(KEYS, rng.choice([0, 1, 2]))
+        # (stateless: also `keys`, the first parameter of the module-level relabel(keys, ...) every d.relabel goes through)
+        if rng.random() < 0.3:
+            extra = rng.sample(ARG_KEYS + ['keys'], rng.choice([1, 2]))
+            d.update({k: rand_val(rng) for k in extra if k not in d})
+            D = encd(cls, d)
+        pool = sorted(set(KEYS) | set(d))
+        olds = rng.sample(pool, rng.choice([0, 1, 2])) + ([k for k in d if k in ARG_KEYS + ['keys']][:1] if rng.random() < 0.7 else [])
+        olds = list(dict.fromkeys(olds))
         fresh = ['A', 'B', 'C', 'D2']
-        arg = enc({k: fresh[i] for i, k in enumerate(olds)})       # new names never collide with existing keys
+        if rng.random() < 0.15 and olds:
+            fresh = rng.sample([k for k in ARG_KEYS + ['keys'] if k not in d] + ['A'], 1) + fresh      # ... and as a NEW name
+        arg = enc({k: fresh[i] for i, k in enumerate(olds)})       # new names never collide with existing keys ...
+        if rng.random() < 0.3 and olds and len(d) >= 2:
+            # ... except here (review t2): a new name that IS another key of d, or two keys relabelled to one name.  The statement's
+            # "exactly the expected keys and untouched values" has no reading then (one value must go); model and code agree on python's
+            # dict construction - the LAST of the colliding items wins, at the position of the first (theorem relabel_lookup)
+            present = [k for k in olds if k in d]
+            others = [k for k in d if k not in olds]
+            if present and others and rng.random() < 0.6:
+                m = {k: fresh[i] for i, k in enumerate(olds)}
+                m[present[0]] = rng.choice(others)
+            else:
+                m = {k: 'A' for k in olds}
+            return dict(tag='d.relabel-collision', lines=['(c16 d.relabel %s %s)' % (D, enc(m))])
+        if any(k in ARG_KEYS + ['keys'] for k in olds + fresh[:len(olds)]):
+            return dict(tag='d.relabel-argname-keys', lines=['(c16 d.relabel %s %s)' % (D, arg)])
     else:
         return dict(tag=op, lines=['(c16 d.keys %s)' % D])
     return dict(tag=op, lines=['(c16 %s %s %s)' % (op, D, arg)])
@@ -272,7 +301,7 @@ def gen_da_history(rng):
             if all(k in d for k in ks):
                 shadow.append({k: d[k] for k in ks})
         elif op == 'relabel':
-            olds = rng.sample(KEYS, rng.choice([0, 1, 2]))
+            olds = rng.sample(sorted(set(KEYS) | (set(d) - set(SHADOW_KEYS) - {'_p'})), rng.choice([0, 1, 2]))
             fresh = ['A', 'B', 'C', 'D2']
             m = {k: fresh[i] for i, k in enumerate(olds) if fresh[i] not in d}
             lines.append('(c16 h.relabel %d %s)' % (h, enc(m)))
@@ -327,9 +356,10 @@ def rand_graph(rng, derived, base, cyclic):
 
 
 def gen_call(rng):
-    base = rng.sample(['a', 'b', 'c'], rng.choice([0, 1, 2, 3]))
+    argnames = rng.random() < 0.2       # base / derived keys spelled like parameter names of Dict.__call__ / apply (never `key`: see ASSUMPTIONS)
+    base = rng.sample(['a', 'self', 'function'] if argnames else ['a', 'b', 'c'], rng.choice([0, 1, 2, 3]))
     env = {k: rng.randrange(-3, 6) for k in base}
-    derived = rng.sample(['p', 'q', 'r', 's', 't', 'u'], rng.choice([0, 1, 2, 2, 3, 3, 4, 5, 6]))
+    derived = rng.sample(['p', 'self', 'other', 'value', 'function', 'u'] if argnames else ['p', 'q', 'r', 's', 't', 'u'], rng.choice([0, 1, 2, 2, 3, 3, 4, 5, 6]))
     if base and derived and rng.random() < 0.35:
         # a callable may REDEFINE a key the mapping already holds; its dependents must then wait for the new value
         for b in rng.sample(base, rng.choice([1, min(2, len(base))])):
@@ -346,7 +376,7 @@ def gen_call(rng):
         if k not in derived:
             kws.append((k, rng.randrange(10, 14)))
     rng.shuffle(kws)
-    return dict(tag='call-' + kind, lines=[call_line(env, kws)])
+    return dict(tag='call-' + kind + ('-argname-keys' if argnames and any(k in ARG_KEYS for k in list(env) + [k for k, _ in kws]) else ''), lines=[call_line(env, kws)])
 
 
 def gen_call_selfloop(rng):
@@ -877,7 +907,7 @@ def laws(rng, tier, ctx):
     m = 150 if tier == 'quick' else 3000
     for _ in range(m):
         c = gen_call(rng)
-        if c['tag'] == 'call-missing-arg':
+        if c['tag'].startswith('call-missing-arg'):
             continue
         sx = proto.parse(c['lines'][0])
         env = {proto.unhex(kv[0]): proto.dec(kv[1]) for kv in sx[2][1:]}
@@ -920,4 +950,39 @@ def _k1(f):
     return bool(m) and m.group(1).startswith('_')
 
 
-MATCHERS = {'attribute_name_is_a_method_or_private': _k1}
+def _k2(f):
+    """K2, exactly: `d + other` (Dict.__add__ = tree_update) where `other` is a HANDLE that holds, at some depth, a branch whose class is
+    a dict subclass other than dict / Dict / dictattr - e.g. the branches `MyDict + {...}` itself creates (a new branch gets the class of
+    the root) - which tree_update reads as a LEAF: the branch of d under that key is replaced, not merged.  Accepted only when: the failing
+    line is an h.addh, the receiver is a Dict, the operand really holds such a nested branch, and the implementation's answer on the same
+    operand with all nested branches made plain dicts IS the model's answer (so nothing else differs)."""
+    lines = f.case.get('lines', [])
+    i = getattr(f, 'line_index', None)
+    if i is None or i >= len(lines) or not lines[i].startswith('(c16 h.addh '):
+        return False
+    from pyg_base import Dict, dictattr
+    st = new_state()
+    for l in lines[:i]:
+        try:
+            run_line(st, proto.parse(l))
+        except Exception:
+            pass                              # a line that raises (KeyError, ...) allocates nothing, as in the engine
+    try:
+        sx = proto.parse(lines[i])
+        h, g = int(sx[2]), int(sx[3])
+        d, o, n = st['dheap'][h], st['dheap'][g], st['dsnap'][h][0]
+    except Exception:
+        return False
+    strict = lambda v: isinstance(v, dict) and type(v) not in (dict, Dict, dictattr)          # noqa: E731
+    nested = lambda v: isinstance(v, dict) and any(strict(x) or nested(x) for x in v.values())   # noqa: E731
+    plain = lambda v: {k: plain(x) for k, x in v.items()} if isinstance(v, dict) else v        # noqa: E731
+    if not isinstance(d, Dict) or not nested(o) or not isinstance(f.model, str):
+        return False
+    try:
+        res = d + plain(o)
+    except Exception:
+        return False
+    return _canon_reply('ok ' + encd(n, res)) == _canon_reply(f.model)
+
+
+MATCHERS = {'attribute_name_is_a_method_or_private': _k1, 'nested_subclass_branch_is_a_leaf': _k2}
